@@ -524,16 +524,22 @@ func isOptionNonEmpty(w *World) (bool, string) {
 			if !ok || len(ret.Results) != 2 {
 				continue
 			}
-			c, ok := ret.Results[1].(*ssa.Const)
-			if !ok {
-				return false, "second result is not a constant at " + w.IPos(ret)
+			tuples := returnTuplesBy(ret.Results, 1, 64)
+			if tuples == nil {
+				return false, "results merged in too many ways at " + w.IPos(ret)
 			}
-			if c.Value == nil || c.Value.String() != "true" {
-				continue
-			}
-			n++
-			if ok, why := w.provablyNonEmpty(ret.Results[0], nonEmptyStr, 0); !ok {
-				return false, fmt.Sprintf("return at %s: %s", w.IPos(ret), why)
+			for _, t := range tuples {
+				c, ok := t[1].(*ssa.Const)
+				if !ok {
+					return false, "second result is not a constant at " + w.IPos(ret)
+				}
+				if c.Value == nil || c.Value.String() != "true" {
+					continue
+				}
+				n++
+				if ok, why := w.provablyNonEmpty(t[0], nonEmptyStr, 0); !ok {
+					return false, fmt.Sprintf("return at %s: %s", w.IPos(ret), why)
+				}
 			}
 		}
 	}
